@@ -126,6 +126,8 @@ class SortReg:
             return self.sort_of_opt(td.args[0])[0]
         if k == 'rec':
             return self.sort_of_rec(td.args[0])
+        if k == 'junion':
+            return td.args[0].sort
         return self.opaque_sort('Any')
 
     def opaque_sort(self, name):
@@ -157,6 +159,8 @@ class SortReg:
         return self.opt_sort[key]
 
     def sort_of_rec(self, schema):
+        if schema.sort is not None:
+            return schema.sort
         if schema not in self.rec_sort:
             d = z3.Datatype('J_' + schema.name)
             flds = []
@@ -168,6 +172,8 @@ class SortReg:
         return self.rec_sort[schema]
 
     def rec_accessor(self, schema, key):
+        if schema.acc is not None:
+            return schema.acc[key]
         s = self.sort_of_rec(schema)
         return s.accessor(0, [k for (k, _) in schema.fields].index(key))
 
